@@ -171,6 +171,8 @@ def symbol_value(g: Grammar, lm: LexModel, kinds, sym: str, pos: str):
         if k == {'list'}:
             return ('symlist', pos, sym)
         return ('sym', pos, sym, om.ROOT if 'op' in k else None, tuple(sorted(k)))
+    if sym in getattr(lm, 'const_value', {}):
+        return ('const', lm.const_value[sym])
     texts = lm.token_texts.get(sym)
     raw = lm.raw_value.get(sym, False)
     if raw and texts is not None and len(texts) == 1:
